@@ -86,3 +86,5 @@ LEVEL = {
 CFG['rule'] = CFG['rule'] + ' ' + 'Additions: quantiser trigger thresholds are biased towards the history length so that training happens inside the history; a death of the child process is a violation (code 199).'
 
 CFG['rule'] = CFG['rule'] + ' ' + 'Update requests of this profile name one point twice one time in five ([remove the vector field], [set it]); every second history searches the empty index before the first write.'
+
+CFG['rule'] = CFG['rule'] + ' ' + 'Every second hamming / jaccard history attaches a binary quantiser block with a threshold of its own (0.2, 0.75, -0.5, 1.5) -- unused for these metrics, bits are taken at 0.5 -- and its vectors take fractional values (0.25 .. 1.25) one time in three.'
